@@ -19,6 +19,23 @@ class CondPlace(Exception):
         self.k = k
 
 
+def fact_closure(c, out=None):
+    """the literals implied by a fact: conjuncts of a conjunction, negated disjuncts of a negated disjunction"""
+    if out is None:
+        out = set()
+    if c in out or c == TRUE:
+        return out
+    out.add(c)
+    if isinstance(c, tuple) and c:
+        if c[0] == 'and':
+            fact_closure(c[1], out)
+            fact_closure(c[2], out)
+        elif c[0] == 'not' and isinstance(c[1], tuple) and c[1] and c[1][0] == 'or':
+            fact_closure(mk_not(c[1][1]), out)
+            fact_closure(mk_not(c[1][2]), out)
+    return out
+
+
 class State:
     __slots__ = ('store', 'guard', 'facts')
 
@@ -33,7 +50,7 @@ class State:
     def with_fact(self, c):
         if c == TRUE:
             return self
-        s = State(self.store, self.guard, self.facts | {c})
+        s = State(self.store, self.guard, self.facts | fact_closure(c))
         return s
 
 
@@ -1273,8 +1290,8 @@ class Interp:
                 return [(tf, state)]
             if tt == tf:
                 return [(tt, state)]
-            s1 = State(state.store, state.guard + ((d, True, None),), state.facts | {d})
-            s0 = State(dict(state.store), state.guard + ((d, False, None),), state.facts | {mk_not(d)})
+            s1 = State(state.store, state.guard + ((d, True, None),), state.facts | fact_closure(d))
+            s0 = State(dict(state.store), state.guard + ((d, False, None),), state.facts | fact_closure(mk_not(d)))
             return [(tt, s1), (tf, s0)]
         if isinstance(d, tuple) and d and d[0] == 'discr':
             en = d[1]
@@ -1715,7 +1732,8 @@ class Interp:
         scan) of its body over that slice.  Returns the closed form of the vector at the `exhausted` exit."""
         seqs = [(r, p, fv, iv) for r, p, fv, iv in summ.carried if isinstance(fv, SeqSym)]
         streams = [(r, p, fv, iv) for r, p, fv, iv in summ.carried if isinstance(fv, Stream)]
-        scal = [(r, p, fv, iv) for r, p, fv, iv in summ.carried if isinstance(fv, tuple) and fv and fv[0] == 'sym']
+        scal = [(r, p, fv, iv) for r, p, fv, iv in summ.carried
+                if (isinstance(fv, tuple) and fv and fv[0] == 'sym') or isinstance(fv, Opaque)]
         other = [x for x in summ.carried if x not in seqs and x not in streams and x not in scal]
         if other or len(seqs) != 1 or len(streams) != 1 or len(summ.back_states) != 1:
             return None
@@ -1735,8 +1753,10 @@ class Interp:
             return None
         ivar = vf.start
         bs = summ.back_states[0]
-        if [(l[0], l[1]) for l in bs.guard] != [(('icmp', 'lt', ivar, v0.end), True)]:
+        bg = [(l[0], l[1]) for l in bs.guard]
+        if not bg or bg[0] != (('icmp', 'lt', ivar, v0.end), True):
             return None
+        extra_back_guard = bg[1:]
         try:
             ib = self.read(bs, ir, ip)
             qb = self.read(bs, qr, qp)
@@ -1754,14 +1774,31 @@ class Interp:
         for x in subterms(absv):
             if x == ('seq', qf.name):
                 return None
-        # exits: exactly one, on exhaustion, leaving the vector as it was at the head
+        # exits: one on exhaustion, leaving the vector as it was at the head; any other exit must abort an
+        # iteration that had an element (`?` / early return): then the exhausted exit is only reached when no
+        # iteration aborted, and the abort condition is recorded with the recurrence
         exits = [(t, s) for t, ss in summ.exit_states.items() for s in ss]
-        if len(exits) != 1:
+        exhausted = []
+        aborts = []
+        for t_, s_ in exits:
+            eg = [(l[0], l[1]) for l in s_.guard]
+            if eg in ([(('icmp', 'ge', ivar, v0.end), True)], [(('icmp', 'lt', ivar, v0.end), False)]):
+                exhausted.append((t_, s_))
+            elif eg and eg[0] == (('icmp', 'lt', ivar, v0.end), True):
+                aborts.append((t_, s_, eg[1:]))
+            else:
+                return None
+        if len(exhausted) != 1 or any(t_ == exhausted[0][0] for t_, _, _ in aborts):
             return None
-        et, es = exits[0]
-        eg = [(l[0], l[1]) for l in es.guard]
-        if eg not in ([(('icmp', 'ge', ivar, v0.end), True)], [(('icmp', 'lt', ivar, v0.end), False)]):
-            return None
+        if extra_back_guard and not aborts:
+            return None        # a conditional `continue` without an abort exit: not a plain build loop
+        et, es = exhausted[0]
+        abort_cond = None
+        for _, _, g in aborts:
+            c = TRUE
+            for cnd, pol in g:
+                c = mk_and(c, cnd if pol else mk_not(cnd))
+            abort_cond = c if abort_cond is None else mk_or(abort_cond, c)
         try:
             if self.read(es, qr, qp) != qf:
                 return None
@@ -1772,7 +1809,7 @@ class Interp:
         mapping = {ivar: self.iadd(v0.start, rel)} if v0.start != iconst(0) else {ivar: rel}
         n = self.isub(v0.end, v0.start)
         src = Stream('src', (v0, i0.parts[1])) if i0.kind == 'src' else i0
-        if not scal:
+        if not scal and abort_cond is None:
             body = SeqMap(src, rel, self.subst_value(val, mapping), 'loop', n)
         else:
             nxt = []
@@ -1782,7 +1819,8 @@ class Interp:
                 except Unsupported:
                     return None
             body = SeqScan(src, rel, tuple(((r, p), fv) for r, p, fv, iv in scal), tuple(iv for r, p, fv, iv in scal),
-                           tuple(nxt), self.subst_value(val, mapping), None, n)
+                           tuple(nxt), self.subst_value(val, mapping),
+                           subst_term(abort_cond, mapping) if abort_cond is not None else None, n)
         value = body if (isinstance(q0, SeqLit) and not q0.elems) else SeqConcat((q0, body))
         summ.recognised = 'BUILD-TRAVERSAL'
         self.events.append({'kind': 'scan' if scal else 'collect', 'fn': frame.f['path'], 'line': summ.line, 'seq': body, 'stream': src, 'from_loop': True})
